@@ -24,9 +24,14 @@ CLAIMED = {
              "establish) with the linter (`lint_misses_bb_input_fanout`: the one clause lint does not look at), and "
              "`limit_fanin_passes_lint`, `limit_fanout_passes_lint`, `logic_blocks_pass_lint` (all widths), "
              "`roundtrip_passes_lint`, `writable_passes_lint`, `acyclic_unroll_passes_lint` prove it for those producers; "
-             "`miter_may_fail_lint` exhibits the exception the property names (untied startpoints). For the remaining "
-             "producers (unroll, ternary, sensitivity transforms, composition, bench reader) the second half is checked by "
-             "running the real functions and is a search, not a theorem.",
+             "`miter_may_fail_lint` exhibits the exception the property names (untied startpoints). Props/C20Producers.lean adds "
+             "`ternary_passes_lint`, `remove_unloaded_passes_lint`, `unroll_passes_lint`, `insert_registers_passes_lint`, "
+             "`sensitization_passes_lint`, `sensitivity_transform_passes_lint`, `miter_tied_passes_lint` (every startpoint tied) "
+             "and, for strip_blackboxes, the exact characterisation `strip_blackboxes_passes_lint_iff` (the stripped circuit "
+             "passes lint iff every dotted node is a pin and no ignored output pin is loaded; the unconditional statement is "
+             "refuted by `strip_blackboxes_passes_lint_false`, whose first counterexample replays on the real code: known "
+             "finding K47). For the remaining producers (composition calls, sequential_unroll, the readers) the second half "
+             "is checked by running the real functions and is a search, not a theorem.",
         note=TRUST + " `Violates` (the documented rule list) is my reading of the docstring/property text.",
         ref="§4 C20"),
     "C16": dict(
@@ -158,8 +163,10 @@ CLAIMED = {
              "`sequential_unroll_complete` (cycle-accurate semantics: the consistent valuations of the unrolled circuit are "
              "exactly the runs of the sequential circuit — one consistent valuation per cycle, q(t+1) = d(t), a string "
              "initial value fixes q(0) — shown at the io map's nodes for the outputs and the exposed flop data nodes; every "
-             "add_flop_outputs / ignore_pins / remove_unloaded choice and order). The per-flop initial-value dict is tied by "
-             "exact correspondence and cycle-accurate simulation search only.",
+             "add_flop_outputs / ignore_pins / remove_unloaded choice and order); `sequential_unroll_dict_sem` / "
+             "`sequential_unroll_dict_complete` / `sequential_unroll_dict_ok` (the same for a per-flop initial-value dict: "
+             "the listed flops start at their values, the others are free; the call succeeds whenever it does without "
+             "initial values).",
         note=TRUST + " The hypothesis the proof of `unroll_inputs` had forced (no state output is itself an input) was a genuine "
              "defect, repaired in /repo (K33); the theorem now holds without it (regression example CG/Proofs/UnrollCex.lean). "
              "`sequential_unroll_*` assume `SeqGood` (one flop type, pins present, no pin marked as output), data pins not "
@@ -206,12 +213,15 @@ CLAIMED = {
                   "statement; the driver evaluates it on the implementation's actual supergate list for every generated circuit; "
                   "+ independent Python oracle and super-circuit simulation",
         text="PARTIAL by design: no for-all-circuits theorem about the decomposition algorithm (dominator trees on a bidirected "
-             "copy of each cone, minimal cover) — it is not modelled. Proof: `supergatesOK_sound` / `supergatesOK_complete`: "
+             "copy of each cone, minimal cover). Proof: `supergatesOK_sound` / `supergatesOK_complete`: "
              "for every circuit and every list, the checker accepts exactly when every supergate is a single-output induced "
              "sub-circuit of the fan-in-limited circuit, the list is topologically ordered, covers every gate of the output "
              "cones and no two inputs of a supergate share transitive fan-in. Each run validates the real tx.supergates output "
              "with this checker (translation validation with a proved checker) and checks the filled super-circuit by "
-             "exhaustive simulation.",
+             "exhaustive simulation. The algorithm itself is modelled (CG/SupergatesAlgo.lean: cone digraph, immediate "
+             "dominators from their definition, supergate growth along the dominator tree, de-duplication, minimal cover, "
+             "dependency cycle test) and run by the driver against the real function on every case (same set of supergates "
+             "with the same heads, same NetworkXUnfeasible verdict); no theorem is claimed about it.",
         note=TRUST + " Known finding K28 (NetworkXUnfeasible on some multi-output circuits).",
         ref="§4 C17"),
     "C19": dict(
